@@ -74,6 +74,30 @@ def c05_grid(ctx, case):
                   atol=1e-12 * max(1.0, float(np.max(np.abs(u)))) if u.size else 0, sig=sig)
 
 
+# ---- the library's own constants as explicit NFFT values --------------------------------------------------------------
+# 4096 is the default NFFT of the functional estimators and 256 the floor of pmtm's default: an explicit request for exactly
+# that value must not be mistaken for "not given", also when the record is longer than it (parametric rows: NFFT < N admissible)
+MAGIC_ROWS = ("pminvar", "pburg", "pyule", "pcovar", "pmodcovar", "pma", "parma")
+
+
+@st.composite
+def magic_case(draw):
+    row = draw(st.sampled_from(MAGIC_ROWS))
+    magic = draw(st.sampled_from([4096, 4096, 256]))
+    n = draw(st.integers(magic + 1, magic + 200))
+    x = draw(gen.signal(dtype="any", kinds=("noise", "ar"), n=n, units=False))
+    p = draw(est.params(row, 40, bool(x["complex"])))
+    pair = draw(st.sampled_from([[magic, 2 * magic], [magic // 2, magic]]))
+    return {"row": row, "x": x, "params": p, "nfft": pair[0], "c": 2}
+
+
+@sub("C05.magic", strategy=magic_case(), quick=80, thorough=800,
+     doc="records longer than the library's default grid sizes (4096, 256) with exactly that NFFT requested, parametric rows: "
+         "same clauses as C05.grid for the pairs (NFFT, 2 NFFT) and (NFFT/2, NFFT)")
+def c05_magic(ctx, case):
+    c05_grid(ctx, case)
+
+
 # ---- functional pmtm: tapers and eigenvalues do not depend on NFFT ---------
 @st.composite
 def taper_case(draw):
